@@ -37,6 +37,7 @@ DECIDED = [
     "C19.6 connects_nodes is symmetric in its arguments; on_the_left / on_the_right agree under left<->right",
     "C19.7 configure_on_endpoint uses the mirrored tuple for the right node and raises for a foreign node",
     "C19.8w the only tunnel parameters pre-set outside the constructor are the mirrored remote-net overrides of a forwarding hop",
+    "C19.1n each end's own network is looked up on its own node through the nic role of the configuration describing that end",
 ]
 NOT_DECIDED = ["(nothing of the statement depends on runtime quantities beyond the opaque values; the mirror is structural)"]
 MIN_INSTANCES = 10
